@@ -12,7 +12,7 @@
                              down one at a time per pair (see docs/C06.md; the excluded
                              schedules are finding D06d and a modelling artefact of delays). *)
 From Coq Require Import ZArith List Bool.
-From BV Require Import Model.Link Proofs.Link Proofs.LinkSym.
+From BV Require Import Model.Link Proofs.Link Proofs.LinkSym Gen.C06Handles Proofs.LinkHandles.
 Import ListNotations.
 Open Scope Z_scope.
 
@@ -26,7 +26,29 @@ Theorem C06_reachable_invariant : forall cfg ls, cfg_ok cfg = true ->
 Proof. exact reachable_ginv. Qed.
 Print Assumptions C06_reachable_invariant.
 
-(* handle allocation: the smallest handle in 1..0xEFF not used by a live connection *)
+(* handle allocation: the smallest handle in 1..0xEFF not used by a live link of any kind;
+   [handles c] ranges over the LE and BR/EDR connections, the SCO / eSCO links and the CIS
+   links of the controller *)
+Theorem C06_handles_cover_every_link_table : forall c,
+  handles c = map k_handle (c_le c) ++ map k_handle (c_cl c) ++ map k_handle (c_sco c) ++ map cis_handle (c_cis c).
+Proof. intro c. exact eq_refl. Qed.
+Print Assumptions C06_handles_cover_every_link_table.
+
+(* regenerated from bumble/controller.py on every run: allocate_connection_handle consults
+   every table in which a connection handle can be resolved (find_*_by_handle), and the model
+   knows exactly those tables (peripheral_cis_links stays empty under the modelled labels) *)
+Theorem C06_alloc_consults_every_handle_table :
+  forallb (fun t => smem t code_alloc_tables) code_handle_tables = true.
+Proof. exact alloc_consults_every_handle_table. Qed.
+Print Assumptions C06_alloc_consults_every_handle_table.
+
+Theorem C06_model_knows_every_handle_table :
+  forallb (fun t => smem t (model_handle_tables ++ model_always_empty)) code_handle_tables = true
+  /\ forallb (fun t => smem t code_handle_tables) (model_handle_tables ++ model_always_empty) = true.
+Proof. exact model_knows_every_handle_table. Qed.
+Print Assumptions C06_model_knows_every_handle_table.
+
+(* the smallest free handle *)
 Theorem C06_handle_allocation : forall c h, alloc c = Some h ->
   ~ In h (handles c) /\ 1 <= h <= max_handle /\ (forall x, 1 <= x < h -> In x (handles c)).
 Proof. exact alloc_spec. Qed.
@@ -215,6 +237,42 @@ Theorem C06_disconnect_classic_remote : forall s k i j cj a r e', nth_error (st_
 Proof. exact detach_deliver. Qed.
 Print Assumptions C06_disconnect_classic_remote.
 
+(* SCO / eSCO: a Disconnect on the handle of a synchronous link concludes that link and no
+   other (the new state differs from the old one in sco_links of controller i only) *)
+Theorem C06_disconnect_sco_local_and_sent : forall s i j ci cj e r, ginv s ->
+  nth_error (st_cs s) i = Some ci -> In e (c_sco ci) -> k_handle e <> 0 ->
+  nth_error (st_cs s) j = Some cj -> c_public cj = k_peer e ->
+  step s (LDisconnect i (k_handle e) r) =
+    (mkState (upd (st_cs s) i (set_sco ci (tbl_del (c_sco ci) (k_peer e))))
+             (st_net s ++ [(i, j, MLmpRemoveSco (c_public ci) r)]),
+     [(i, EStatus 0); (i, EDisc (k_handle e) r)], [(i, j, MLmpRemoveSco (c_public ci) r)]).
+Proof. exact disconnect_sco. Qed.
+Print Assumptions C06_disconnect_sco_local_and_sent.
+
+Theorem C06_disconnect_sco_remote : forall s k i j cj a r e', nth_error (st_net s) k = Some (i, j, MLmpRemoveSco a r) ->
+  existsb (same_pair i j) (firstn k (st_net s)) = false ->
+  nth_error (st_cs s) j = Some cj -> tbl_get (c_sco cj) a = Some e' ->
+  step s (LDeliver k) =
+    (mkState (upd (st_cs s) j (set_sco cj (tbl_del (c_sco cj) a))) (remove_nth k (st_net s)),
+     [(j, EDisc (k_handle e') r)], []).
+Proof. exact remove_sco_deliver. Qed.
+Print Assumptions C06_disconnect_sco_remote.
+
+(* in all the disconnect theorems the table of the link loses exactly the entry that owns the
+   handle: deleting the entry of k removes k and nothing else *)
+Theorem C06_disconnect_removes_only_the_owner : forall t k x, keys_nodup t -> In k t ->
+  (In x (tbl_del t (k_peer k)) <-> In x t /\ x <> k).
+Proof. exact tbl_del_only. Qed.
+Print Assumptions C06_disconnect_removes_only_the_owner.
+
+(* a non-zero handle of a synchronous link is used by no LE or BR/EDR connection of the
+   controller and by no other synchronous link *)
+Theorem C06_sco_handle_owner : forall c k, cinv c -> In k (c_sco c) -> k_handle k <> 0 ->
+  by_handle (c_le c) (k_handle k) = None /\ by_handle (c_cl c) (k_handle k) = None /\
+  by_handle (c_sco c) (k_handle k) = Some k.
+Proof. exact sco_handle_owner. Qed.
+Print Assumptions C06_sco_handle_owner.
+
 (* ---------------------------------------------------------------- non-vacuity *)
 (* three controllers; 1 advertises with its public address, 0 connects with its public own
    address (the D06a configuration), data flows both ways, 0 disconnects; controller 2 sees
@@ -237,4 +295,21 @@ Example C06_nonvacuous :
      [(1%nat, EAcl 1 [1; 2; 3])]; [(0%nat, EAcl 1 [4; 5])];
      [(0%nat, EStatus 0); (0%nat, EDisc 1 19)]; [(1%nat, EDisc 1 19)]] /\
   st_net s = [] /\ map c_le (st_cs s) = [[]; []; []].
+Proof. vm_compute. repeat split. Qed.
+
+(* controller 0 holds an ACL to 1 (handle 1), an eSCO link on it (handle 2), two CIS (3, 4), then an
+   ACL to 2 (handle 5); disconnecting handle 2 concludes the eSCO link only *)
+Example C06_nonvacuous_all_link_kinds :
+  let cfg := [(10, 11, false); (20, 21, false); (30, 31, false)] in
+  let ls := [LClConnect 0 20; LDeliver 0; LClAccept 1 10; LDeliver 0;
+             LScoSetup 0 1; LDeliver 0; LScoAccept 1 10; LDeliver 0;
+             LSetCig 0 7 [0; 1];
+             LClConnect 0 30; LDeliver 0; LClAccept 2 10; LDeliver 0;
+             LDisconnect 0 2 19; LDeliver 0] in
+  cfg_ok cfg = true /\ run_ok guard_sym (init cfg) ls = true /\
+  let '(s, tr) := run (init cfg) ls in
+  map fst (skipn 8 tr) =
+    [[(0%nat, ECig [3; 4])]; [(0%nat, EStatus 0)]; [(2%nat, EClReq 10)]; [(2%nat, EStatus 0); (2%nat, EClConn 1 10)];
+     [(0%nat, EClConn 5 30)]; [(0%nat, EStatus 0); (0%nat, EDisc 2 19)]; [(1%nat, EDisc 2 19)]] /\
+  map handles (st_cs s) = [[1; 5; 3; 4]; [1]; [1]].
 Proof. vm_compute. repeat split. Qed.
